@@ -254,12 +254,12 @@ func tLt(a, b Term) Term { return Term{app("<", a, b), SBool} }
 // Sort registry: Go types -> SMT sorts, struct datatypes.
 
 type StructInfo struct {
-	Name   string // SMT datatype name
-	Ctor   string
-	Fields []string // selector names
-	FSorts []Sort
-	GoType *types.Struct
-	Named  string // short go name pkg.Type
+	Name      string // SMT datatype name
+	Ctor      string
+	Fields    []string // selector names
+	FSorts    []Sort
+	GoType    *types.Struct
+	Named     string // short go name pkg.Type
 	namedType *types.Named
 }
 
